@@ -138,3 +138,7 @@ def run(chk, repo, tier):
     # the guard keys reach VortexMesh unchanged: copied for multi-section surfaces, never rewritten
     keys_rule(chk, repo, rule="G4", only_keys={"groundplane", "symmetry"})
     l3b(chk, repo, all_models(repo), rule="G1b", only_keys={"groundplane", "symmetry"})
+    # the image construction is dimensionally homogeneous: the height enters as a length
+    from .c06 import u1
+
+    u1(chk, repo, only={"VortexMesh", "GetVectors", "EvalVelMtx"}, rule="G5", min_decided=3, dimconst=False)
